@@ -52,6 +52,9 @@ def one(sid):
     finally:
         shutil.rmtree(scratch, ignore_errors=True)
     out['caught'] = all(v['exit'] == 1 for v in out['runs'].values()) if out['runs'] else False
+    # a change whose demonstration no longer fails on the current tree (or whose patch no longer applies) has been overtaken
+    # by a repair of /repo: it is kept as a record, not counted
+    out['superseded'] = bool((not out['applies']) or out.get('demo_exit_with_change') == 0)
     return sid, prop, out
 
 
@@ -74,8 +77,8 @@ def main():
             meta = json.load(open(mp))
             meta['recheck'] = out
             json.dump(meta, open(mp, 'w'), indent=1)
-            status = 'CAUGHT' if out.get('caught') else ('PATCH-DOES-NOT-APPLY' if not out['applies'] else 'MISSED')
-            if status != 'CAUGHT':
+            status = 'CAUGHT' if out.get('caught') else ('SUPERSEDED' if out.get('superseded') else 'MISSED')
+            if status == 'MISSED':
                 bad += 1
             for o, v in (out.get('other_checks') or {}).items():
                 print('    also %s: exit %s %s' % (o, v['exit'], v['mechanisms'][:1]))
